@@ -3,9 +3,35 @@ from . import conc
 from .concprop import *
 
 
+def stress_part(ck):
+    """Thorough tier only: the same programs with REAL threads (release build, no scheduler) as a search for
+    failures outside sequentially consistent interleavings.  Search, not proof."""
+    if ck.tier != "thorough":
+        return
+    import random, subprocess
+    build_harness("release")
+    rng = random.Random(ck.seed + 3)
+    lines = []
+    for i in range(300):
+        g = conc.ProgGen(rng, reads=False, nexts=False)
+        setup, threads = g.program()
+        lines.append("z%d|%d|%s|%s|%d" % (i, g.price, ";".join(setup), "#".join(";".join(t) for t in threads), 300))
+    p = subprocess.run([harness_bin("release"), "stress"], input="\n".join(lines) + "\n", text=True, stdout=subprocess.PIPE, timeout=3000)
+    res = [l[2:].split(" ", 1) for l in p.stdout.splitlines() if l.startswith("Z ")]
+    bad = [(i, r) for i, r in res if r != "ok"]
+    ck.extra["real_thread_trials"] = 300 * len(res)
+    ck.oblige("search (real threads, release build, no scheduler): aggregates = sums at quiescence and after a drain", not bad and len(res) == len(lines),
+              "%d programs fail, %d of %d ran" % (len(bad), len(res), len(lines)))
+    if bad:
+        pid, why = bad[0]
+        line = [l for l in lines if l.startswith(pid + "|")][0]
+        ck.violation("stress", dict(kind="real-thread-stress", program=line, why=why,
+                                    note="not deterministic: re-run `harness stress` with this line"))
+
+
 def run(tier, seed, replay=None):
     return run_conc_property(
         "C03", tier, seed, replay,
         judges=[("aggregates at quiescence", lambda rec, prog, info: conc.judge_quiescent_agg(rec)),
                 ("per-order conservation", conc.judge_ledger)],
-        n_quick=2500, n_thorough=60000)
+        n_quick=2500, n_thorough=60000, extra_obligations=stress_part)
